@@ -223,6 +223,9 @@ func (c *chanv) close() {
 	}
 	journalFn(func() { c.closed = false })
 	c.closed = true
+	if sch != nil {
+		c.closeWake()
+	}
 }
 
 // copyVal returns a copy of v that shares no mutable aggregate storage with it: cells hold
